@@ -62,6 +62,11 @@ def gen_step(rng, n_hint):
     if m == "slice":
         a = rng.randint(0, n_hint + 1)
         st["a"], st["b"] = a, rng.randint(0, n_hint + 2)
+        if rng.random() < 0.4:
+            # every form a Python list takes: a step (also backwards, also other than -1), negative and omitted bounds
+            st["step"] = rng.choice([-1, -2, -3, 2, 3, -4])
+            st["a"] = rng.choice([None, a, -a - 1, n_hint + 1 - a])
+            st["b"] = rng.choice([None, st["b"], -rng.randint(0, n_hint + 2) - 1])
     return st
 
 
@@ -185,7 +190,7 @@ def apply_impl(lod, st):
     if m == "tail":
         return lod.tail(st["n"])
     if m == "slice":
-        return lod[st["a"]:st["b"]]
+        return lod[st["a"]:st["b"]:st["step"]] if "step" in st else lod[st["a"]:st["b"]]
     raise ValueError(m)
 
 
@@ -325,14 +330,15 @@ def reference(pre, st):
         k = min(st["n"], len(items))
         out = items[len(items) - k:]
     elif m == "slice":
-        out = items[st["a"]:st["b"]]
+        out = items[st["a"]:st["b"]:st["step"]] if "step" in st else items[st["a"]:st["b"]]
     return out
 
 
 def model_requests(case, obs):
     reqs = []
     for st, rec in zip(case["steps"], obs["steps"]):
-        if rec.get("skipped") or rec.get("shared"):
+        if rec.get("skipped") or rec.get("shared") or "step" in rec.get("st", st):
+            # (a stepped slice is judged by the Python-list reference alone: the model's slice has natural bounds, no step)
             reqs.append(("lod_reverse", {"xs": []}))
             continue
         if "post" not in rec:
@@ -445,7 +451,7 @@ def judge(ctx, case, obs, mouts):
             nontrivial = True
         if rec.get("shared"):
             ctx.count("shared-object-edit")
-        if mouts is not None and idx < len(mouts) and not rec.get("shared"):
+        if mouts is not None and idx < len(mouts) and not rec.get("shared") and "step" not in rec.get("st", st):
             mo = mouts[idx]
             if isinstance(mo, dict) and "err" in mo:
                 ctx.violation("correspondence", f"{m}:model-error", f"model rejected the request: {mo['err']}", sub, rec, mo)
